@@ -220,6 +220,12 @@ where
         .handshake_timeout
         .unwrap_or(Duration::from_secs(15));
 
+      // One deadline for the whole handshake: a timeout that restarts with every read lets a peer
+      // that drips a byte now and then hold the connection (and its slot) for ever.
+      let hs_deadline = self
+        .handshake_deadline
+        .unwrap_or_else(|| TokioInstant::now() + hs_timeout);
+
       'handshake: loop {
         if self.zmtp_engine.phase == ZmtpPhase::Data
           || self.zmtp_engine.phase == ZmtpPhase::Closed
@@ -250,8 +256,8 @@ where
               }
             }
           }
-          r = tokio::time::timeout(
-            hs_timeout,
+          r = tokio::time::timeout_at(
+            hs_deadline,
             hs_read_half.read_buf(&mut self.handshake_read_buf),
           ) => r,
         };
